@@ -82,6 +82,8 @@ def configs(tier, seed):
                 for f in ([], [("drop", 0)], [("extra_row", 0)], [("blank_nan", n - 1)]):
                     fk = "+".join("_".join(map(str, x)) for x in f) or "none"
                     out.append(dict(h="reader", op=reader, key=f"reader/{reader}/{name}/{fk}/am={int(am)}/ae={int(ae)}", ds=name, layout="long_cols", faults=[list(x) for x in f], am=am, ae=ae, reader=reader))
+                    # the same through CompoundDataReader.read_parameters, the definition listing the dimensions in reversed order
+                    out.append(dict(h="reader", op=reader + "_compound", key=f"reader/{reader}/{name}/{fk}/am={int(am)}/ae={int(ae)}/compound", ds=name, layout="long_cols", faults=[list(x) for x in f], am=am, ae=ae, reader=reader, compound=True))
     return out
 
 
@@ -306,8 +308,28 @@ def run(cfg, w):
             else:
                 rd = dr.ExcelParameterReader(parameter_files={"prm": "/nonexistent/prm.xlsx"}, parameter_sheets={"prm": "Sheet1"}, allow_missing_values=am, allow_extra_values=ae)
             try:
-                y = rd.read_parameter_values("prm", build_dims(cfg["ds"]))
+                if cfg.get("compound"):
+                    from flodym import Dimension, DimensionSet, ParameterDefinition
+
+                    class NoDims(dr.DimensionReader):
+                        def read_dimension(self, dimension_definition):
+                            raise AssertionError("no dimension is read when parameters are")
+
+                    sup = DimensionSet(dim_list=[Dimension(name="Unused one", letter="x", items=["x1", "x2"])] + list(build_dims(cfg["ds"]).dim_list)
+                                       + [Dimension(name="Unused two", letter="y", items=[7, 8, 9], dtype=int)])
+                    letters = tuple(sp[0] for sp in spec)[::-1]
+                    got = dr.CompoundDataReader(dimension_reader=NoDims(), parameter_reader=rd).read_parameters(
+                        [ParameterDefinition(name="prm", dim_letters=letters)], sup)
+                    w.ob("one_parameter_per_definition", list(got) == ["prm"])
+                    y = got["prm"]
+                    w.ob("parameter_dims_in_listed_order", tuple(y.dims.letters) == letters and all(y.dims[l].items == list(sp[2]) for l, sp in zip(letters[::-1], spec)))
+                    if y.dims.ndim == len(spec) and set(y.dims.letters) == set(letters):
+                        y = y.cast_to(build_dims(cfg["ds"])) if False else Parameter(dims=build_dims(cfg["ds"]), values=np.transpose(y.values, [y.dims.letters.index(sp[0]) for sp in spec]), name=y.name)
+                else:
+                    y = rd.read_parameter_values("prm", build_dims(cfg["ds"]))
                 raised = None
+            except AssertionError:
+                raise
             except Exception as e:
                 y, raised = None, e
         finally:
